@@ -2,6 +2,7 @@ import Orca.Lemmas.Roundtrip
 import Orca.Lemmas.Types
 import Orca.Lemmas.Locals
 import Orca.Props.C30
+import Orca.Lemmas.Sections
 /-!
 # C02 — unmodified round trip preserves module content
 
@@ -48,5 +49,27 @@ example : (fromVal (.ref true true .Any)).bind toEnc = some (.ref true false .An
 example : (fromVal (.ref true false .Cont)).bind toEnc = some (.ref false false .Cont) := rfl
 /-- … and the types the exception proposal needs do (after the repair of F1) -/
 example : (fromVal (.ref true false .Exn)).bind toEnc = some (.ref true false .Exn) := rfl
+
+open Orca.Sections in
+/-- **no content-bearing section is dropped, none is invented** (M15, tied to the source by `c01_section_writes_reviewed` and per case
+    by the `roundtrip` family, which compares the section ids of every output with `plan`): a section is written exactly when the
+    vector it is made from is non-empty — types, imports, tables, tags, exports, elements, data; functions, memories and globals
+    count their imported entities too, so a module that only imports a memory gets an (empty) memory section; the start section
+    exactly when there is a start function; the data-count section exactly when the input had one. -/
+theorem c02_sections_kept (s : Shape) :
+    (1 ∈ plan s ↔ s.typeGroups > 0) ∧ (2 ∈ plan s ↔ s.imports > 0) ∧ (3 ∈ plan s ↔ s.funcs > 0) ∧ (4 ∈ plan s ↔ s.tables > 0)
+    ∧ (5 ∈ plan s ↔ s.mems > 0) ∧ (13 ∈ plan s ↔ s.tags > 0) ∧ (6 ∈ plan s ↔ s.globals > 0) ∧ (7 ∈ plan s ↔ s.exports > 0)
+    ∧ (8 ∈ plan s ↔ s.start = true) ∧ (9 ∈ plan s ↔ s.elems > 0) ∧ (12 ∈ plan s ↔ s.dataCount = true) ∧ (11 ∈ plan s ↔ s.datas > 0) := by
+  have h0 : ∀ n : Nat, ∀ x : Nat, x ≠ 0 → x ∉ List.replicate n 0 := by
+    intro n x hx hm; exact hx (List.eq_of_mem_replicate hm)
+  refine ⟨?_, ?_, ?_, ?_, ?_, ?_, ?_, ?_, ?_, ?_, ?_, ?_⟩ <;>
+    simp only [plan, List.mem_append, List.mem_ite_nil_right, List.mem_singleton, List.mem_cons, List.not_mem_nil] <;>
+    simp [h0]
+
+open Orca.Sections in
+/-- the name section and then the custom sections other than `name` follow everything else, as many as were stored (their order: C28) -/
+theorem c02_customs_last (s : Shape) : ∃ pre, plan s = pre ++ [0] ++ List.replicate s.customs 0 ∧ pre = core s := by
+  refine ⟨_, rfl, ?_⟩
+  rw [core_eq]
 
 end Orca.C02
